@@ -249,7 +249,7 @@ def ts_iter():
     return dict(ensures=[C("enum", "exists|ks: Seq<TxHash>| is_enum(self@, ks) && res@.len() == ks.len() && (forall|i: int| 0 <= i < ks.len() ==> *(#[trigger] res@[i]) == self@[ks[i]])", "C07")])
 def ap_batch_impl():
     return dict(requires=[C("pre", "batch_pre(*this, txx@)")],
-                ensures=[C("ok", "res is Ok ==> batch_result(*this, txx@, res->Ok_0)", "C02", "C06"),
+                ensures=[C("ok", "res is Ok ==> batch_result(*this, txx@, res->Ok_0)", "C02", "C06", "C03"),
                          C("errkind", "res is Err ==> !(res->Err_0 is WrongHeader)", "C06", char=True)])
 
 def cm_new_abs():
